@@ -2,7 +2,8 @@
     client connection constructed as (U)Transport.dial constructs it, and what that
     connection answered to boundary frames. *)
 From Coq Require Import List ZArith Bool String.
-From V Require Import Gen.Params Lib.Hex Wire.Varint AdvEnf.Model.
+From V Require Import Gen.Params Lib.Hex Wire.Varint.
+From V Require Export AdvEnf.Model.   (* the case terms mention [ev] constructors *)
 Import ListNotations.
 Open Scope Z_scope.
 
@@ -16,7 +17,7 @@ Inductive case :=
           (adv : list Z)                (* the harness's own reading of the wire (limits_list order; idle in ms) *)
           (rec : list Z)                (* ourParams fields (same order; idle in ms) *)
           (enf : list Z)                (* read from the connection *)
-          (idle : Z)                    (* Conn.idleTimeout after applyTransportParameters, ns *)
+          (idle : Z)                    (* Conn.idleTimeout after applyTransportParams, ns *)
           (probes : list (ev * Z)).     (* boundary events and the error code each produced (stops at the first error) *)
 
 Record obs := mkObs {
